@@ -40,6 +40,13 @@ def u64 (b : Bytes) (i : Nat) : Nat := u32 b i + 4294967296 * u32 b (i + 4)
 /-- an unchecked slice/index that needs `n` bytes: panics when fewer are left -/
 def need (b : Bytes) (n : Nat) : Res Unit := if b.length < n then .panic "slice" else .ok ()
 
+/-- a checked read that needs `n` bytes: `XlsError::Len { expected, found, typ }` (its `Debug` text) when fewer
+    are left (length checks added by the robustness fix b5774ce) -/
+def needLen (typ : String) (b : Bytes) (n : Nat) : Res Unit :=
+  if b.length < n then
+    .err ("Len { expected: " ++ toString n ++ ", found: " ++ toString b.length ++ ", typ: \"" ++ typ ++ "\" }")
+  else .ok ()
+
 /-! ### `utils.rs` -/
 
 /-- the `while n > 0` loop of `push_column` (letters least significant first) -/
@@ -359,9 +366,9 @@ def runXls (ctx : Ctx) : Nat → Bytes → St → Res St
 
 /-- `xls.rs parse_formula(rgce, sheets, names, xtis, encoding)`; `rgce` starts with the 2-byte `cce` -/
 def parseFormulaXls (ctx : Ctx) (rgce : Bytes) : Res (List Char) := do
-  need rgce 2
+  needLen "formula" rgce 2
   let cce := u16 rgce 0
-  need rgce (2 + cce)
+  needLen "formula" rgce (2 + cce)
   let body := (rgce.drop 2).take cce
   match runXls ctx body.length body ⟨[], []⟩ with
   | .ok st =>
@@ -537,6 +544,10 @@ def parseFormulaXlsb (ctx : Ctx) (rgce : Bytes) : Res (List Char) :=
 
 /-! ### `xls.rs parse_defined_names` (the Lbl formula: only a leading 3-D token is read) -/
 
+/-- the token-size check of `parse_defined_names` (added by the robustness fix b5774ce; the pinned code
+    slice-indexed and panicked): a formula shorter than its leading 3-D token is `XlsError::Len` -/
+def needDn (b : Bytes) (n : Nat) : Res Unit := needLen "defined name formula" b n
+
 /-- returns `(ixti, text)`; columns are printed unmasked and always with `$` (as the code does) -/
 def definedNameXls (rgce : Bytes) : Res (Option Nat × List Char) :=
   match rgce with
@@ -545,15 +556,15 @@ def definedNameXls (rgce : Bytes) : Res (Option Nat × List Char) :=
     let ptg := p.toNat
     match ptg with
     | 0x3a | 0x5a | 0x7a => do
-      need rgce 7
+      needDn rgce 7
       .ok (some (u16 rgce 1), '$' :: pushColumn (u16 rgce 5) ++ '$' :: natText (u16 rgce 3 + 1))
     | 0x3b | 0x5b | 0x7b => do
-      need rgce 11
+      needDn rgce 11
       .ok (some (u16 rgce 1),
            '$' :: pushColumn (u16 rgce 7) ++ '$' :: natText (u16 rgce 3 + 1) ++ ':' ::
            '$' :: pushColumn (u16 rgce 9) ++ '$' :: natText (u16 rgce 5 + 1))
     | 0x3c | 0x5c | 0x7c | 0x3d | 0x5d | 0x7d => do
-      need rgce 3
+      needDn rgce 3
       .ok (some (u16 rgce 1), "#REF!".toList)
     | _ => .ok (none, ("Unsupported ptg: " ++ String.ofList (Nat.toDigits 16 ptg)).toList)
 
